@@ -12,10 +12,17 @@ use std::convert::TryInto;
 fn parse_xref_section_from_stream(first_id: u32, mut num_entries: usize, width: &[usize], data: &mut &[u8], resolve: &impl Resolve) -> Result<XRefSection> {
     let mut entries = Vec::new();
     let [w0, w1, w2]: [usize; 3] = width.try_into().map_err(|_| other!("invalid xref length array"))?;
-    if num_entries * (w0 + w1 + w2) > data.len() {
+    // the widths and the number of entries come from the file: no unchecked arithmetic on them, and an entry
+    // of no bytes at all would let /Index announce any number of entries without data to back them
+    let entry_len = w0.checked_add(w1).and_then(|n| n.checked_add(w2)).ok_or_else(|| other!("invalid xref field widths"))?;
+    if entry_len == 0 {
+        bail!("xref stream entries have no width");
+    }
+    let available = data.len() / entry_len;
+    if num_entries > available {
         if resolve.options().allow_xref_error {
             warn!("not enough xref data. truncating.");
-            num_entries = data.len() / (w0 + w1 + w2);
+            num_entries = available;
         } else {
             bail!("not enough xref data");
         }
